@@ -20,7 +20,7 @@ CONSTANTS
   ReservedCand = {"now"}
   Units = {"docs"}
   TagSeqs <- TagSeqsQ
-  PartKinds = {"ops", "chals", "corpora"}
+  PartKinds = {"ops", "chals", "corpora", "opsN", "sched", "docs"}
   DefectKinds <- DefectsAll
   MaxOps = 2
   MaxChals = 2
